@@ -18,7 +18,7 @@ import (
 // (check, renumber, check, renumber) over one disk, the write monitor and replay.
 
 type yamlLine struct {
-	Kind   string `json:"k"` // id | title | other
+	Kind   string `json:"k"`           // id | title | other
 	Prefix string `json:"p,omitempty"` // id/title: everything up to and including the colon
 	Test   int    `json:"t,omitempty"` // ordinal of the test the line belongs to (1-based)
 	Text   string `json:"x"`           // the line as written
